@@ -48,6 +48,18 @@ def run(prog, rep, tier):
     rng_rules(rep, prog, f)
     raises = [r for r in S.select("raise", qname=Q) if r.exctype == "ValueError"]
     draws = [c for c in S.select("call", qname=Q) if c.callkind == "method" and c.target == ".choice"]
+    # which requests are rejected is a function of the request: a ValueError that depends on what was *drawn* (the realised sizes)
+    # accepts or rejects the same request depending on the seed
+    for r in raises:
+        drawn = [x for c, _ in r.path for x in walk(c) if isinstance(x, tuple) and len(x) == 2 and x[0] == "$draw"]
+        if drawn:
+            rep.bad("GUARD.random", fwhere(f, r.node), "this ValueError depends on a random draw (`%s`): the same request is accepted or rejected depending on the seed" %
+                    "; ".join(sorted(pred_fmt(p_) for p_ in resolve(conj(r.path))))[:120])
+    # `isinstance(size, tuple)` alone selects the range form once tuples of another length have been rejected on the way
+    len_guarded = any(resolve(conj(r.path)) == frozenset([("atom", ISTUP, True), ("!=0", pkey(padd(poly(LEN), pconst(2), -1)))]) for r in raises)
+
+    def tuple_cond(c):
+        return is_tuple2(c) or (len_guarded and resolve(conj([(c, True)])) == frozenset([("atom", ISTUP, True)]))
     found = {}
     for r in raises:
         cs = resolve(conj(r.path))
@@ -61,7 +73,7 @@ def run(prog, rep, tier):
             pd = dict(gts[0][1])
             atoms_ = {a for m in pd for a in m}
             ms = [a for a in atoms_ if isinstance(a, tuple) and a[0] == "phi"]
-            if len(ms) == 1 and max_size_term(ms[0]):
+            if len(ms) == 1 and (max_size_term(ms[0]) or (ms[0][0] == "phi" and tuple_cond(ms[0][1]) and ms[0][2] == ("sub", SIZE, ("const", 1)) and ms[0][3] == SIZE)):
                 Mx = ms[0]
                 if pkey(pd) == pkey(padd(poly(Mx), poly(Pp), -1)) and not rest:
                     found["max-size"] = r
@@ -69,6 +81,48 @@ def run(prog, rep, tier):
                     found["without-replacement"] = r
     labels = {"tuple-length": "size is a tuple and len(size) != 2", "max-size": "max_size > p", "without-replacement": "not replace and max_size * K > p"}
     first_draw = min([d.order for d in draws] or [10**9])
+    if len(found) < 3 and raises:
+        # the three rejections may be spelled with nested ifs / one combined test / a helper with its own order of checks: compare
+        # the *disjunction* of all ValueError path conditions with the documented one, as propositional formulas over the
+        # comparisons that occur (max_size abstracted: size[1] for a tuple, size otherwise)
+        from ..pred import prop_compare
+        MAXS = ("sym", "max_size")
+
+        def canon(t):
+            if isinstance(t, tuple) and len(t) == 4 and t[0] == "phi" and t[2] == ("sub", SIZE, ("const", 1)) and t[3] == SIZE and \
+                    (is_tuple2(t[1]) or resolve(conj([(t[1], True)])) == frozenset([("atom", ISTUP, True)])):
+                return MAXS
+            if isinstance(t, tuple):
+                return tuple(canon(x) for x in t)
+            return t
+        got = ("or", frozenset(("and", frozenset(conj([(canon(c), pol) for c, pol in r.path]))) for r in raises))
+        T_, L_ = ("atom", ISTUP, True), ("!=0", pkey(padd(poly(LEN), pconst(2), -1)))
+        M_ = (">0", pkey(padd(poly(MAXS), poly(Pp), -1)))
+        Q_ = (">0", pkey(padd(pmul(poly(MAXS), poly(K)), poly(Pp), -1)))
+        want = ("or", frozenset([("and", frozenset([T_, L_])), M_, ("and", frozenset([("atom", REPL, False), Q_]))]))
+        verdict, info = prop_compare(got, want)
+        early = all(r.order < first_draw and not r.loops for r in raises)
+        if verdict == "equal":
+            for k, label in labels.items():
+                rep.check("GUARD." + k, early, fwhere(f, raises[0].node, construct="%s: %s" % (k, head(raises[0].node))), "ValueError iff %s (the union of the %d ValueError conditions equals the "
+                          "documented one), before any draw" % (label, len(raises)), "the guards do not precede the draws")
+            rep.ok("GUARD.count", fwhere(f), "%d ValueError sites whose conditions together are exactly the three documented rejections" % len(raises))
+            found = None
+        elif verdict == "unknown":
+            # a comparison over one of the documented quantities with another boundary (>= for >, the operands swapped) is a
+            # different rejection, not an unknown one: the per-guard report below says which one is missing
+            from ..pred import prop_atoms
+            def pk(a):
+                return a[1] if a[0] in (">0", ">=0", "==0", "!=0") else None
+            def neg(k):
+                return pkey({m: -c for m, c in dict(k).items()})
+            known = {pk(x) for x in (L_, M_, Q_)} | {neg(pk(x)) for x in (L_, M_, Q_)}
+            extra = prop_atoms(got) - prop_atoms(want)
+            if not any(pk(a) is not None and pk(a) in known for a in extra):
+                rep.unk("GUARD.union", fwhere(f), "the ValueError conditions are not in a form that can be compared with the documented rejections: %s" % info)
+                found = None
+    if found is None:
+        labels = {}
     for k, label in labels.items():
         r = found.get(k)
         if r is None:
@@ -77,7 +131,8 @@ def run(prog, rep, tier):
         else:
             ok = r.order < first_draw and not r.loops
             rep.check("GUARD." + k, ok, fwhere(f, r.node), "ValueError iff %s, before any draw" % label, "the guard `%s` does not precede the draws" % label)
-    rep.check("GUARD.count", len(raises) == 3, fwhere(f), "exactly the three documented rejections", "%d ValueError sites (3 documented)" % len(raises))
+    if found is not None:
+        rep.check("GUARD.count", len(raises) == 3, fwhere(f), "exactly the three documented rejections", "%d ValueError sites (3 documented)" % len(raises))
     # SIZES
     ints = [c for c in S.select("call", qname=Q) if c.callkind == "method" and c.target == ".integers"]
     ok, why = False, "no rng.integers call"
@@ -89,15 +144,20 @@ def run(prog, rep, tier):
         incl = (hi == ("binop", "+", ("sub", SIZE, ("const", 1)), ("const", 1)) and b.get("endpoint") in (None, ("const", False))) or \
                (hi == ("sub", SIZE, ("const", 1)) and b.get("endpoint") == ("const", True))
         ok = c.recv == RNG and b.get("low") == ("sub", SIZE, ("const", 0)) and incl and b.get("size") == K and not extra
-        ok = ok and any(is_tuple2(cond) and pol for cond, pol in c.path)
+        want2 = frozenset([("atom", ISTUP, True), ("==0", pkey(padd(poly(LEN), pconst(2), -1)))])
+        ok = ok and (any(is_tuple2(cond) and pol for cond, pol in c.path) or want2 <= resolve(conj(c.path)))
         why = "low=%s high=%s size=%s" % tuple(fmt(b.get(k, ("const", None))) for k in ("low", "high", "size"))
         sizes_t = c.result
     rep.check("SIZES.range", ok, fwhere(f, ints[0].node if ints else None), "sizes = rng.integers(size[0], size[1] + 1, K): inclusive range, one per intervention",
               "range sizes deviate: " + why)
     # CHOICE / COUNT / POOL
     loops = sorted([(k, v) for k, v in S.loopinfo.items() if v["func"] == Q], key=lambda kv: kv[0][1])
-    rep.check("COUNT.loops", len(loops) == 2 and len(draws) == 2, fwhere(f), "one sampling loop per mode (with / without replacement)",
-              "expected two sampling loops with one draw each, found %d loops / %d draws" % (len(loops), len(draws)))
+    if len(draws) == 2 and len(loops) < 2 and any(isinstance(x, tuple) and x[:1] == ("comp",) for x in walk(T(summ.ret))):
+        # a mode written as a comprehension instead of a loop with append: the loop rules do not read it
+        rep.unk("COUNT.loops", fwhere(f), "a sampling mode is written as a comprehension: the per-loop rules (COUNT / CHOICE / POOL) do not read this idiom")
+    else:
+        rep.check("COUNT.loops", len(loops) == 2 and len(draws) == 2, fwhere(f), "one sampling loop per mode (with / without replacement)",
+                  "expected two sampling loops with one draw each, found %d loops / %d draws" % (len(loops), len(draws)))
     fixed = ("binop", "*", ("list", (SIZE,)), K)
     for lid, li in loops:
         it = li["iter"]
@@ -123,7 +183,7 @@ def run(prog, rep, tier):
         sz = b.get("size")
         fixed_forms = (fixed, ("ext", "numpy.repeat", (SIZE, K), ()), ("ext", "numpy.full", (K, SIZE), ()), ("binop", "*", ("tuple", (SIZE,)), K),
                        ("binop", "*", K, ("list", (SIZE,))))
-        sz_ok = sz is not None and sz[0] == "sub" and sz[2] in counter and sz[1][0] == "phi" and is_tuple2(sz[1][1]) and \
+        sz_ok = sz is not None and sz[0] == "sub" and sz[2] in counter and sz[1][0] == "phi" and tuple_cond(sz[1][1]) and \
             sz[1][2] == sizes_t and sz[1][3] in fixed_forms
         rep.check("CHOICE.distinct", d.recv == RNG and b.get("replace") == ("const", False) and not extra, fwhere(f, d.node),
                   "rng.choice(..., replace=False): distinct variables within an intervention", "targets within an intervention may repeat (replace is not False) or another generator is used")
@@ -153,8 +213,11 @@ def run(prog, rep, tier):
                       "without replacement the pool is not `range(p)` minus everything drawn so far")
     negative_zero_slices(rep, prog, [Q], rule="SLICE.minus-zero")
     ret = T(summ.ret)
-    rep.check("RESULT.list", ret[0] == "phi" and ret[1] == REPL and all(x[0] == "after" for x in ret[2:4]), fwhere(f),
-              "returns the list built by the selected mode", "result is %s" % fmt(ret)[:80])
+    if ret[0] == "phi" and ret[1] == REPL and any(x[0] == "comp" for x in ret[2:4]) and all(x[0] in ("after", "comp") for x in ret[2:4]):
+        rep.unk("RESULT.list", fwhere(f), "a mode returns a comprehension: not read by the list rules")
+    else:
+        rep.check("RESULT.list", ret[0] == "phi" and ret[1] == REPL and all(x[0] == "after" for x in ret[2:4]), fwhere(f),
+                  "returns the list built by the selected mode", "result is %s" % fmt(ret)[:80])
     rep.require_count("GUARD", 4)
     rep.require_count("CHOICE", 5)
     rep.assume("Generator.integers(low, high) excludes high; Generator.choice(replace=False) returns distinct elements")
